@@ -49,8 +49,11 @@ Proof. exact (roundtrip_root gen_schema gen_tables gen_schema_json_ok). Qed.
 Print Assumptions C15_roundtrip_running_code.
 
 (* canon only touches what the encoding cannot see: the canonical tree has the same JSON.
-   (Byte-identical re-encoding of the DECODED tree follows if Pos()/End() of the decoded tree equal
-   those of the original; the methods are not modelled, the Go-side search checks the bytes.) *)
+   Byte-identical re-encoding of the DECODED tree follows if Pos()/End() of the decoded tree equal
+   those of the original. The methods are not modelled; the Go-side search compares the bytes on every
+   tree. It holds on every tree without recovered positions that was explored and FAILS on trees with
+   recovered positions (known finding KF-C15-1: a method comparing offsets with a recovered position
+   answers differently once that position is unset; only derived Pos/End members differ). *)
 Theorem C15_reencode :
   forall (sch : schema) (tb : tables) (v : value), encode sch tb (canon v) = encode sch tb v.
 Proof. exact encode_canon. Qed.
